@@ -5,4 +5,4 @@ From PV Require Import Model.Prelude Model.Bits Model.Sig Model.Matcher Model.Se
 Require Extraction ExtrOcamlBasic.
 Extraction Language OCaml.
 Set Extraction Output Directory ".".
-Extraction "model.ml" tcp_match win_multi fp_tcp uptime fp_mtu imp_mtu parse_options parse_packet sig_of parse_file db_len parse_tcp_sig parse_http_sig parse_mtu_sig parse_os_label dump_label dump_layout dump_quirks parse_layout parse_quirks lookup candidates read_payload fp_http history loader0 run_ops empty_db imp_tcp enc_out supported_b coherent_b oracle.
+Extraction "model.ml" tcp_match win_multi fp_tcp uptime fp_mtu imp_mtu parse_options parse_packet sig_of parse_file parse_text file_lines db_len parse_tcp_sig parse_http_sig parse_mtu_sig parse_os_label dump_label dump_layout dump_quirks parse_layout parse_quirks lookup candidates read_payload fp_http history loader0 run_ops empty_db imp_tcp enc_out supported_b coherent_b oracle.
